@@ -489,6 +489,15 @@ def _exec_set(plan, res, log, pid, mode):
             break
         for a, s in sets.items():
             if a in donated:
+                # append shares the result OBJECTS by design, but the donor keeps its own lists: what is appended to the
+                # receiver later must not show up in the donor
+                for nm, slots in model[a].items():
+                    if len(s[nm]) != len(slots):
+                        add_violation(res, pid + ".operand_mutated", step, "the set that donated its results through append_all_results now holds %d '%s' results instead of %d" % (
+                            len(s[nm]), nm, len(slots)), {"op": kind, "level": "set", "type": "donor_list"})
+                        break
+                if res["status"] != "ok":
+                    break
                 continue
             has_sk = "num_skipped_reps" in s.get_result_names()
             if (skipm.get(a) is not None) != has_sk or (has_sk and s["num_skipped_reps"][-1]._value != skipm[a]):
@@ -618,6 +627,22 @@ def _exec_combine(plan, res, log, pid, mode):
         add_violation(res, pid + ".grouping", 0, "combined parameters %s, union of the grids %s" % (got_params, ugrid), {"op": "combine", "level": "combine"})
         return
     log.add("state", [sorted((nm, [stats_of(r, nm) for r in union[nm]]) for nm in names)])
+    # the union is the caller's own object now: updating its results must not reach the operands
+    snap_ops = [_set_snapshot(s) for s in built]
+    rs_u = np.random.RandomState(len(combos) + 7)
+    for nm in names:
+        for r in union[nm]:
+            if r.num_updates > 0 or True:
+                o_ = [int(rs_u.randint(0, CHOICE_NUMS[nm])), None] if is_choice(nm) else ([int(rs_u.randint(0, 9)), 2] if nm == "RATIO" else [int(rs_u.randint(0, 9)), None])
+                try:
+                    do_update(r, nm, o_)
+                except Exception:       # noqa: BLE001
+                    pass
+    for i, s in enumerate(built):
+        if _set_snapshot(s) != snap_ops[i]:
+            add_violation(res, pid + ".operand_mutated", 1, "updating the results of the combined set changed operand %d of combine_simulation_results" % i,
+                          {"op": "combine", "level": "combine", "type": "union_shares_operand_result"})
+            return
     res["nontrivial"] = True
     if overlap:
         bump(res["probes"], "combine_overlapping_combination")
